@@ -420,6 +420,327 @@ fn run_sweep(c: &SweepCase) -> Verdict {
     })
 }
 
+// ---- third pending table: DhtCoreEngine::retrieve → NetworkSender → handle_response -------------------------
+// The engine's own query path: `retrieve` asks up to 3 of the closest routing-table entries through the
+// NetworkSender it was given and waits for `handle_response` calls (5 s per query). The API has no sender
+// argument, so only matching by id, exactly-once completion, no leak and the outcome rule are asserted.
+use saorsa_core::dht::core_engine::{DhtCoreEngine, DhtKey, DhtRequestWrapper, DhtResponseWrapper, NodeCapacity, NodeId, NodeInfo};
+use saorsa_core::dht::network_integration::{DhtMessage, DhtResponse};
+
+const T_CORE: Duration = Duration::from_secs(5);
+
+#[derive(Debug, Clone, Serialize, Deserialize)]
+pub enum CoreStep {
+    /// start a retrieve for a fresh key
+    Retrieve,
+    /// answer outstanding query #q: 0 value, 1 no value, 2 error reply, 3 a reply of another kind
+    Reply(u16, u8),
+    /// a reply carrying an id nobody issued
+    UnknownId(u8),
+    Advance(u16),
+    /// drop the caller of retrieve #r
+    Abort(u16),
+    /// sends to table entry p fail / work again
+    SendFails(u8, bool),
+}
+#[derive(Debug, Clone, Serialize, Deserialize)]
+pub struct CoreCase {
+    peers: u8,
+    steps: Vec<CoreStep>,
+}
+
+#[derive(Default)]
+struct SenderLog {
+    /// (destination peer id string, request wrapper) in send order
+    sent: Vec<(String, DhtRequestWrapper)>,
+    failing: std::collections::HashSet<String>,
+}
+struct CoreSender {
+    me: String,
+    log: std::sync::Mutex<SenderLog>,
+}
+#[async_trait::async_trait]
+impl saorsa_core::network::NetworkSender for CoreSender {
+    async fn send_message(&self, peer_id: &String, _protocol: &str, data: Vec<u8>) -> saorsa_core::Result<()> {
+        let mut g = self.log.lock().unwrap();
+        if g.failing.contains(peer_id) {
+            return Err(saorsa_core::P2PError::Network(saorsa_core::error::NetworkError::ProtocolError("verif: send fails".into())));
+        }
+        if let Ok(w) = postcard::from_bytes::<DhtRequestWrapper>(&data) {
+            g.sent.push((peer_id.clone(), w));
+        }
+        Ok(())
+    }
+    fn local_peer_id(&self) -> &String {
+        &self.me
+    }
+}
+
+struct CoreQuery {
+    retrieve: usize,
+    id: String,
+    sent_at: Duration,
+    /// first reply delivered while pending: Some(Some(v)) value, Some(None) anything else
+    outcome: Option<Option<Vec<u8>>>,
+    /// a reply arrived within 5 ms of the deadline
+    ambiguous: bool,
+}
+
+fn run_core(c: &CoreCase) -> Verdict {
+    let rt = paused_rt();
+    let pan0 = panic_count();
+    let mut v = rt.block_on(async {
+        let mut v = Verdict::new();
+        let site = "DhtCoreEngine::retrieve";
+        let mut eng = match DhtCoreEngine::verif_new_log_only(NodeId::from_bytes([0x04; 32])) {
+            Ok(e) => e,
+            Err(e) => {
+                v.fail(format!("{ID}/harness/node-construction-failed"), e.to_string());
+                return v;
+            }
+        };
+        let sender = std::sync::Arc::new(CoreSender { me: "verif-core".into(), log: std::sync::Mutex::new(SenderLog::default()) });
+        eng.set_transport(sender.clone());
+        let peers = (c.peers as usize).clamp(1, 6);
+        let mut peer_names = Vec::new();
+        for i in 0..peers {
+            let id = NodeId::from_bytes(*blake3::hash(&[i as u8, 0xc4]).as_bytes());
+            peer_names.push(id.to_string());
+            let _ = eng.add_node(NodeInfo { id, address: node_addr(i).to_string(), last_seen: std::time::SystemTime::now(), capacity: NodeCapacity::default() }).await;
+        }
+        let eng = std::sync::Arc::new(eng);
+        let t0 = tokio::time::Instant::now();
+        let mut handles: Vec<Option<tokio::task::JoinHandle<Result<Option<Vec<u8>>, String>>>> = Vec::new();
+        let mut keys: Vec<DhtKey> = Vec::new();
+        let mut aborted: Vec<bool> = Vec::new();
+        let mut started: Vec<Duration> = Vec::new();
+        let mut queries: Vec<CoreQuery> = Vec::new();
+        let mut seen_sent = 0usize;
+        let mut adversarial_while_two_pending = false;
+        let mut serial = 0u32;
+        // pull newly sent requests out of the sender log and attribute them to their retrieve by key
+        macro_rules! collect {
+            () => {{
+                let g = sender.log.lock().unwrap();
+                while seen_sent < g.sent.len() {
+                    let (_to, w) = &g.sent[seen_sent];
+                    seen_sent += 1;
+                    if let DhtMessage::Retrieve { key, .. } = &w.message {
+                        if let Some(r) = keys.iter().position(|k| k == key) {
+                            queries.push(CoreQuery { retrieve: r, id: w.id.clone(), sent_at: started[r], outcome: None, ambiguous: false });
+                        }
+                    }
+                }
+            }};
+        }
+        for st in &c.steps {
+            match st {
+                CoreStep::Retrieve => {
+                    if handles.len() >= 40 {
+                        continue;
+                    }
+                    let r = handles.len();
+                    let key = DhtKey::from_bytes(*blake3::hash(&[r as u8, 0x4c]).as_bytes());
+                    keys.push(key.clone());
+                    aborted.push(false);
+                    started.push(t0.elapsed());
+                    let e = eng.clone();
+                    handles.push(Some(tokio::spawn(async move { e.retrieve(&key).await.map_err(|e| e.to_string()) })));
+                    settle(1).await;
+                    collect!();
+                }
+                CoreStep::Reply(q, kind) => {
+                    collect!();
+                    if queries.is_empty() {
+                        continue;
+                    }
+                    let qi = idx(*q, queries.len());
+                    serial += 1;
+                    let val = vec![serial as u8, (serial >> 8) as u8, 0x04, qi as u8];
+                    let response = match kind % 4 {
+                        0 => DhtResponse::RetrieveReply { value: Some(val.clone()) },
+                        1 => DhtResponse::RetrieveReply { value: None },
+                        2 => DhtResponse::Error { code: saorsa_core::dht::network_integration::ErrorCode::NodeNotFound, message: "no".into(), retry_after: None },
+                        _ => DhtResponse::LeaveAck { confirmed: true },
+                    };
+                    let now = t0.elapsed();
+                    let pending_now = queries.iter().filter(|x| x.outcome.is_none() && !aborted[x.retrieve] && now < x.sent_at + T_CORE).count();
+                    {
+                        let x = &mut queries[qi];
+                        let age = now.saturating_sub(x.sent_at);
+                        if x.outcome.is_some() || aborted[x.retrieve] || age > T_CORE + Duration::from_millis(5) {
+                            // duplicate, cancelled or late: must change nothing
+                            if pending_now >= 2 {
+                                adversarial_while_two_pending = true;
+                            }
+                        } else if age + Duration::from_millis(5) < T_CORE {
+                            x.outcome = Some(if kind % 4 == 0 { Some(val) } else { None });
+                        } else {
+                            x.ambiguous = true;
+                        }
+                    }
+                    let id = queries[qi].id.clone();
+                    eng.handle_response(DhtResponseWrapper { id, response }).await;
+                    settle(1).await;
+                }
+                CoreStep::UnknownId(x) => {
+                    collect!();
+                    let now = t0.elapsed();
+                    if queries.iter().filter(|q| q.outcome.is_none() && !aborted[q.retrieve] && now < q.sent_at + T_CORE).count() >= 2 {
+                        adversarial_while_two_pending = true;
+                    }
+                    eng.handle_response(DhtResponseWrapper { id: format!("00000000-0000-4000-8000-0000000000{x:02x}"), response: DhtResponse::RetrieveReply { value: Some(vec![0xbd; 8]) } }).await;
+                    settle(1).await;
+                }
+                CoreStep::Advance(ms) => {
+                    tokio::time::sleep(Duration::from_millis(*ms as u64)).await;
+                }
+                CoreStep::Abort(r) => {
+                    if handles.is_empty() {
+                        continue;
+                    }
+                    let r = idx(*r, handles.len());
+                    if let Some(h) = handles[r].as_ref() {
+                        if !h.is_finished() {
+                            h.abort();
+                            aborted[r] = true;
+                        }
+                    }
+                    settle(1).await;
+                }
+                CoreStep::SendFails(p, on) => {
+                    let name = peer_names[*p as usize % peers].clone();
+                    let mut g = sender.log.lock().unwrap();
+                    if *on {
+                        g.failing.insert(name);
+                    } else {
+                        g.failing.remove(&name);
+                    }
+                }
+            }
+        }
+        collect!();
+        // every retrieve resolves once all of its queries have an answer or have timed out
+        tokio::time::sleep(T_CORE + Duration::from_millis(100)).await;
+        for (r, h) in handles.iter_mut().enumerate() {
+            let Some(h) = h.take() else { continue };
+            if aborted[r] {
+                let _ = h.await;
+                continue;
+            }
+            let got = match tokio::time::timeout(Duration::from_secs(60), h).await {
+                Err(_) => {
+                    v.fail(format!("{ID}/{site}/request-never-completed"), format!("retrieve #{r} still unresolved {T_CORE:?} after its last query was sent"));
+                    continue;
+                }
+                Ok(Err(e)) => {
+                    v.fail(format!("{ID}/{site}/request-task-failed"), e.to_string());
+                    continue;
+                }
+                Ok(Ok(x)) => x,
+            };
+            let mine: Vec<&CoreQuery> = queries.iter().filter(|q| q.retrieve == r).collect();
+            if mine.iter().any(|q| q.ambiguous) {
+                v.class("reply_at_the_deadline(not judged)");
+                continue;
+            }
+            // first successful reply in query order, else none
+            let want: Option<Vec<u8>> = mine.iter().find_map(|q| q.outcome.clone().flatten());
+            match got {
+                Ok(g) => {
+                    if g != want {
+                        let any_value = mine.iter().filter_map(|q| q.outcome.clone().flatten()).any(|x| Some(&x) == g.as_ref());
+                        let sig = if g.is_some() && !any_value { "completed-by-a-reply-that-does-not-match" } else if g.is_none() { "matching-reply-not-delivered" } else { "completed-with-a-reply-other-than-the-first-matching-one" };
+                        v.fail(format!("{ID}/{site}/{sig}"), format!("retrieve #{r} with {} queries returned {:?}, the replies delivered to its own queries while pending give {:?}", mine.len(), g, want));
+                    }
+                }
+                Err(e) => {
+                    // an error is acceptable only when nothing could be delivered (every send failed)
+                    if want.is_some() {
+                        v.fail(format!("{ID}/{site}/matching-reply-not-delivered"), format!("retrieve #{r} failed with '{e}' although a value was delivered to one of its queries"));
+                    }
+                }
+            }
+        }
+        let mut left = eng.verif_pending_requests_len().await;
+        let cancelled = aborted.iter().filter(|a| **a).count();
+        if left != 0 && cancelled > 0 {
+            // entries of cancelled callers may be swept when the next query is admitted (as in TransportHandle):
+            // issue one more retrieve, let its queries time out, and look again
+            let e = eng.clone();
+            let k = DhtKey::from_bytes(*blake3::hash(b"c04-extra").as_bytes());
+            let h = tokio::spawn(async move { e.retrieve(&k).await.map(|_| ()).map_err(|e| e.to_string()) });
+            tokio::time::sleep(T_CORE + Duration::from_millis(100)).await;
+            let _ = tokio::time::timeout(Duration::from_secs(60), h).await;
+            left = eng.verif_pending_requests_len().await;
+            v.class("swept_by_next_query");
+        }
+        if left != 0 {
+            v.fail(format!("{ID}/{site}/entry-left-in-pending-table"), format!("{left} entries remain after every retrieve resolved or was cancelled and {T_CORE:?} more passed ({cancelled} cancelled callers, {} queries)", queries.len()));
+        }
+        v.nt(adversarial_while_two_pending);
+        if aborted.iter().any(|a| *a) {
+            v.class("with_cancelled_caller");
+        }
+        v.count("queries", queries.len() as u64);
+        v
+    });
+    attribute_task_panics(&mut v, ID, pan0);
+    v
+}
+
+#[derive(Debug, Clone, Serialize, Deserialize)]
+pub struct CoreCapCase {
+    extra: u8,
+}
+/// Documented cap of the core-engine table: 10 000 simultaneously pending queries, the rest refused at once.
+fn run_core_cap(c: &CoreCapCase) -> Verdict {
+    let rt = paused_rt();
+    rt.block_on(async {
+        let mut v = Verdict::new();
+        let site = "DhtCoreEngine::retrieve";
+        let mut eng = match DhtCoreEngine::verif_new_log_only(NodeId::from_bytes([0x04; 32])) {
+            Ok(e) => e,
+            Err(e) => {
+                v.fail(format!("{ID}/harness/node-construction-failed"), e.to_string());
+                return v;
+            }
+        };
+        let sender = std::sync::Arc::new(CoreSender { me: "verif-core".into(), log: std::sync::Mutex::new(SenderLog::default()) });
+        eng.set_transport(sender.clone());
+        for i in 0..3usize {
+            let id = NodeId::from_bytes(*blake3::hash(&[i as u8, 0xc4]).as_bytes());
+            let _ = eng.add_node(NodeInfo { id, address: node_addr(i).to_string(), last_seen: std::time::SystemTime::now(), capacity: NodeCapacity::default() }).await;
+        }
+        let eng = std::sync::Arc::new(eng);
+        let retrieves = 3334 + c.extra as usize % 40;
+        let mut hs = Vec::new();
+        for r in 0..retrieves {
+            let e = eng.clone();
+            let key = DhtKey::from_bytes(*blake3::hash(&[(r >> 8) as u8, r as u8, 0x4d]).as_bytes());
+            hs.push(tokio::spawn(async move { e.retrieve(&key).await.map_err(|e| e.to_string()) }));
+        }
+        settle(5).await;
+        let pending = eng.verif_pending_requests_len().await;
+        let sent = sender.log.lock().unwrap().sent.len();
+        v.check(pending <= 10_000, &format!("{ID}/{site}/more-than-10000-queries-pending"), || format!("{pending} pending after {retrieves} concurrent retrieves of 3 queries each"));
+        v.check(sent <= 10_000, &format!("{ID}/{site}/query-beyond-the-cap-not-refused"), || format!("{sent} queries sent with a cap of 10000"));
+        v.check(pending == sent.min(10_000), &format!("{ID}/{site}/pending-count-differs-from-queries-in-flight"), || format!("{pending} pending, {sent} sent"));
+        tokio::time::sleep(T_CORE + Duration::from_millis(100)).await;
+        for h in hs {
+            if tokio::time::timeout(Duration::from_secs(60), h).await.is_err() {
+                v.fail(format!("{ID}/{site}/request-never-completed"), "a retrieve was still unresolved after the query timeout".to_string());
+                break;
+            }
+        }
+        let left = eng.verif_pending_requests_len().await;
+        v.check(left == 0, &format!("{ID}/{site}/entry-left-in-pending-table"), || format!("{left} entries remain after every query timed out"));
+        v.nt(true);
+        v.count("queries_sent", sent as u64);
+        v
+    })
+}
+
 pub fn run(run: &Run) {
     run.assume("the hub is in manual mode: request frames are parked, every delivery to the node under test is an explicit script step with an explicit authenticated sender id; virtual time");
     run.assume("thread interleavings inside one critical section are not explored (single-threaded runtime); delivery/timeout/cancel orderings are");
@@ -444,6 +765,21 @@ pub fn run(run: &Run) {
     };
     run.prop_f("script", run.tier.pick(16000, 100000), sh, case, run_case);
     run.prop("cap", run.tier.pick(60, 160), 3, any::<u8>().prop_map(|extra| CapCase { extra }), run_cap);
+    run.set_rule("core", "DhtCoreEngine::retrieve over a harness NetworkSender with 1..6 routing-table entries: script (len 1..25, thorough ..120) of retrieve / reply to an outstanding query (value, no value, error, wrong kind; duplicates and late ones arise by index) / unknown id / advance virtual time (incl. past the 5 s query timeout) / cancel the caller / failing sends; outcome = first value delivered to one of its own queries while pending, table empty at the end; non-trivial = duplicate, late, cancelled-target or unknown-id delivery while ≥2 queries are pending");
+    let core_case = move || {
+        let step = prop_oneof![
+            5 => Just(CoreStep::Retrieve),
+            6 => (any::<u16>(), 0u8..4).prop_map(|(q, k)| CoreStep::Reply(q, k)),
+            2 => any::<u8>().prop_map(CoreStep::UnknownId),
+            3 => prop_oneof![1u16..1000, 4900u16..5100, 5100u16..9000].prop_map(CoreStep::Advance),
+            2 => any::<u16>().prop_map(CoreStep::Abort),
+            1 => (any::<u8>(), any::<bool>()).prop_map(|(p, d)| CoreStep::SendFails(p, d)),
+        ];
+        (1u8..=6, prop::collection::vec(step, 1..=maxlen)).prop_map(|(peers, steps)| CoreCase { peers, steps })
+    };
+    run.prop_f("core", run.tier.pick(12000, 100000), sh, core_case, run_core);
+    run.set_rule("core_cap", "3334..3373 concurrent retrieves of 3 queries each against the core-engine table: at most 10 000 pending, queries beyond the cap refused before they are sent, table empty after the timeouts");
+    run.prop("core_cap", run.tier.pick(4, 24), 4, any::<u8>().prop_map(|extra| CoreCapCase { extra }), run_core_cap);
     run.set_rule("sweep", "real clock, request timeout 40 ms: 1..12 DHT callers cancelled mid-request (+0..5 that time out normally), then one more request after 2× the timeout: the pending table must be empty");
     run.prop("sweep", run.tier.pick(240, 1200), sh, (any::<u8>(), any::<u8>()).prop_map(|(cancelled, completed)| SweepCase { cancelled, completed }), run_sweep);
 }
@@ -453,6 +789,8 @@ pub fn replay(run: &Run, sub: &str, case: &Value) -> Option<bool> {
         "script" => Some(run.eval_case("replay/script", &from_value::<Case>(case)?, &run_case)),
         "cap" => Some(run.eval_case("replay/cap", &from_value::<CapCase>(case)?, &run_cap)),
         "sweep" => Some(run.eval_case("replay/sweep", &from_value::<SweepCase>(case)?, &run_sweep)),
+        "core" => Some(run.eval_case("replay/core", &from_value::<CoreCase>(case)?, &run_core)),
+        "core_cap" => Some(run.eval_case("replay/core_cap", &from_value::<CoreCapCase>(case)?, &run_core_cap)),
         _ => None,
     }
 }
